@@ -3,12 +3,19 @@
    stack is consulted safely for every token list), and the matching step: a non-void element
    dropped for lack of attributes is pushed and its own end tag pops exactly that entry, emitting
    nothing but the optional blank and restoring the stack, the flag, and the skipping state.
-   Missing: the induction over whole well-nested documents (kept same-named descendants are
-   counted on the entry; void elements are never pushed); carried by the bounded-exhaustive loop
-   correspondence and the balance oracle on generated trees. *)
+   Proved for whole documents (Proofs/TreeSem.v, induction over trees): for every forest in which
+   every non-void element is opened and closed (void elements as lone start tags, self-closing
+   tags, text, comments, script and style included), every policy and matcher interpretation, the
+   emitted items are well nested (C09_output_balanced): every kept start tag of a non-void element
+   is followed by a well-nested segment and its own end tag, no stray end tag is written; and the
+   loop state after the forest is the state before it up to the most-recent-tag field
+   (C09_state_restored), which is what makes a removed start tag take its end tag with it and a
+   kept one keep it (the bracket lemma).
+   Missing: the parse of arbitrary bytes into such a forest (tree construction not modelled);
+   carried by the balance oracle on generated trees. *)
 From Coq Require Import List NArith ZArith Bool.
 Import ListNotations.
-From BM Require Import Bytes Tokenizer Policy Attrs Loop LoopInv MiscProofs.
+From BM Require Import Bytes Tokenizer Policy Attrs Loop LoopInv MiscProofs TreeSem.
 
 Section C09.
   Variables M U R : Type.
@@ -26,7 +33,25 @@ Section C09.
                 exists st2, step I p st1 (TEnd n) = Ok st2 (space_if_adding p) /\
                             stack st2 = stack st /\ skipClosing st2 = skipClosing st /\ skip st2 = skip st /\ skipCount st2 = skipCount st.
   Proof. exact (dropped_pair I p). Qed.
+
+  Theorem C09_output_balanced : forall f, forallb wf f = true -> balanced (emitted I p (flatten_forest f)).
+  Proof. exact (output_balanced I p). Qed.
+
+  Theorem C09_state_restored : forall f st, forallb wf f = true -> Inv2 M U R I p st ->
+    exists r o, exec M U R I p st (flatten_forest f) = Some (set_recent st r, o).
+  Proof. intros f st. apply state_restored. Qed.
+
+  (* start and end tag of one element: removed together or kept together *)
+  Theorem C09_bracket : forall n a st, Inv2 M U R I p st -> is_void n = false ->
+    exists stA oA oB,
+      step I p st (TStart n a) = Ok stA oA /\ Inv2 M U R I p stA /\
+      (forall r, step I p (set_recent stA r) (TEnd n) = Ok (set_recent st (end_recent r n)) oB) /\
+      bclass M U R I p st n a stA oA oB.
+  Proof. intros n a st. apply bracket. Qed.
 End C09.
 
 Print Assumptions C09_stack_invariant.
 Print Assumptions C09_dropped_pair_partial.
+Print Assumptions C09_output_balanced.
+Print Assumptions C09_state_restored.
+Print Assumptions C09_bracket.
